@@ -5,8 +5,6 @@
 From stdpp Require Import sorting.
 From incr Require Import Base Heap EngineDefs Engine.
 
-Global Instance fn1_eq : EqDecision fn1. Proof. solve_decision. Defined.
-Global Instance fn2_eq : EqDecision fn2. Proof. solve_decision. Defined.
 Global Instance faultkind_eq : EqDecision faultkind. Proof. solve_decision. Defined.
 Global Instance which_eq : EqDecision which. Proof. solve_decision. Defined.
 Global Instance errclass_eq : EqDecision errclass. Proof. solve_decision. Defined.
